@@ -20,15 +20,15 @@ ASSUMPTIONS = ["hand model of Debugger.next / real_ops / handlers (corresponded,
 
 def run(ctx):
     thorough, seed = ctx["thorough"], ctx["seed"]
-    total = {"evaluations": 0, "disagreements": [], "violations": [], "streams": {}, "distribution": {}}
+    total = {"evaluations": 0, "disagreements": [], "violations": [], "streams": {}, "distribution": {}, "distinct_nontrivial": 0}
     for name, rr in (("c12", dbgsem.check_c12(seed, 2500 if thorough else 300)),
                      ("dbgmodel", dbgsem.check_model(seed + 1, 1500 if thorough else 150))):
         total["evaluations"] += rr["evaluations"]
+        total["distinct_nontrivial"] += rr.get("distinct", 0)
         total["disagreements"] += rr["disagreements"]
         total["violations"] += rr["violations"]
         total["streams"][name] = rr["evaluations"]
         total["distribution"][name] = rr.get("distribution", {})
-    total["distinct_nontrivial"] = total["evaluations"]
     total["rule"] = ("generated terminating programs with adjacent identical operations, pseudo-ops of every expansion length, nested "
                      "calls and recursion x interleavings of next/next n/step/continue/break/clear (lines, labels, '.', invalid)")
     total["samples"] = [{"cmds": ["break f", "next", "continue", "step", "clear *"]}]
